@@ -274,6 +274,8 @@ ResolveFun(funs, name, args) ==
 EnvIdx(env, name) == IF \E i \in 1..Len(env) : env[i].n = name
                      THEN CHOOSE i \in 1..Len(env) : env[i].n = name ELSE 0
 CkOk(t, e) == [ok |-> TRUE, ty |-> t, e |-> e]
+\* the debug column of a term, carried through the annotation when the tree has one
+DcOf(e) == IF "dc" \in DOMAIN e THEN e.dc ELSE -2
 CkNo(why) == [ok |-> FALSE, why |-> why]
 
 RECURSIVE Check(_, _, _), CheckSeq(_, _, _)
@@ -320,7 +322,7 @@ Check(e, env, funs) ==
                 LET r == ResolveFun(funs, e.f.n, ats) IN
                 IF ~r.ok THEN CkNo("no-overload")
                 ELSE IF \E i \in 1..Len(ats) : ~TypeEq(r.f.ps[i], ats[i]) THEN CkNo("param-mismatch")
-                ELSE CkOk(r.f.ret, [k |-> "call", f |-> e.f, args |-> aes,
+                ELSE CkOk(r.f.ret, [k |-> "call", f |-> e.f, args |-> aes, dc |-> DcOf(e),
                                      res |-> [kind |-> "static", fi |-> r.fi, pi |-> r.pi], fty |-> r.f])
               ELSE
                 LET c == Check(e.f, env, funs) IN
@@ -329,7 +331,7 @@ Check(e, env, funs) ==
                 ELSE LET r == InferFun(c.ty, ats) IN
                      IF ~r.ok THEN CkNo("dyn-mismatch")
                      ELSE IF \E i \in 1..Len(ats) : ~TypeEq(r.f.ps[i], ats[i]) THEN CkNo("param-mismatch")
-                     ELSE CkOk(r.f.ret, [k |-> "call", f |-> c.e, args |-> aes, res |-> [kind |-> "dyn"], fty |-> r.f])
+                     ELSE CkOk(r.f.ret, [k |-> "call", f |-> c.e, args |-> aes, dc |-> DcOf(e), res |-> [kind |-> "dyn"], fty |-> r.f])
     [] e.k = "sub" ->
          LET x == Check(e.x, env, funs) IN
          IF ~x.ok THEN x
@@ -338,15 +340,15 @@ Check(e, env, funs) ==
               IF ~i.ok THEN i
               ELSE IF x.ty.k = "list" THEN
                      (IF ~TypeEq(i.ty, TNum) THEN CkNo("index-type")
-                      ELSE CkOk(x.ty.el, [k |-> "sub", x |-> x.e, i |-> i.e, xk |-> "list"]))
+                      ELSE CkOk(x.ty.el, [k |-> "sub", x |-> x.e, i |-> i.e, xk |-> "list", dc |-> DcOf(e)]))
               ELSE (IF ~TypeEq(i.ty, x.ty.key) THEN CkNo("key-type")
-                    ELSE CkOk(x.ty.val, [k |-> "sub", x |-> x.e, i |-> i.e, xk |-> "map"]))
+                    ELSE CkOk(x.ty.val, [k |-> "sub", x |-> x.e, i |-> i.e, xk |-> "map", dc |-> DcOf(e)]))
     [] e.k = "mem" ->
          LET x == Check(e.x, env, funs) IN
          IF ~x.ok THEN x
          ELSE IF x.ty.k # "obj" THEN CkNo("not-object")
          ELSE LET j == FieldIdx(x.ty.fs, e.n) IN
-              IF j = 0 THEN CkNo("no-field") ELSE CkOk(x.ty.fs[j].t, [k |-> "mem", x |-> x.e, n |-> e.n])
+              IF j = 0 THEN CkNo("no-field") ELSE CkOk(x.ty.fs[j].t, [k |-> "mem", x |-> x.e, n |-> e.n, dc |-> DcOf(e)])
     [] OTHER -> CkNo("not-core")
 
 =============================================================================
